@@ -157,6 +157,9 @@ class ParametricTransform:
         copy = self._copy_with_own_parameters()
         if callable(params):
             delattr(copy, "p")
+            # A torch.nn.Module (e.g., neural network or linked transformation) is registered
+            # as child module, remove it such that a tensor can be assigned to this name.
+            copy._modules.pop("params", None)
         if isinstance(params, Parameter) and not isinstance(arg, Parameter):
             copy.params = Parameter(arg, params.requires_grad)
         else:
